@@ -56,6 +56,7 @@ import networkx as nx  # noqa: E402
 import numpy as np  # noqa: E402
 
 from . import common as _C  # noqa: E402
+from . import exd as X  # noqa: E402
 from . import ftstate as F  # noqa: E402
 from . import gen_session as G  # noqa: E402
 from .common import Failure, Result, h, ncores, shard_seeds  # noqa: E402
@@ -176,6 +177,8 @@ def gen_relink_ops(rng: random.Random, ses: Session, n: int) -> list[dict]:
 
 def build(spec: dict, ops: list[dict]) -> Session:
     ses = Session(spec)
+    if spec.get("mixed_pos"):
+        mix_pos(ses, spec)
     if spec.get("vel"):
         add_vel(ses, spec)
     for op in ops:
@@ -796,6 +799,11 @@ def check_c14(tracks, co: CaseOut, fmts=("csv", "csv-display", "geff", "internal
                 co.fail("C14|csv-display|export-raises-" + (type(r).__name__ if st == "err" else "hang"),
                         f"export_to_csv(use_display_names=True): {_exc(r) if st == 'err' else 'hang'}")
             else:
+                if model:
+                    # the file against the Lean model of the display-name layout (family EXD, R6H)
+                    ln = X.line_csv(tracks, I, enc, enc_sel(None))
+                    if ln is not None:
+                        co.model("C14 csv-display file", ln, X.str_file(d / "b.csv", tracks, I, cnum, False))
                 fd = tracks.features
                 nm: dict[str, Any] = {"id": "ID", "parent_id": "Parent ID"}
                 loaded: list[str] = []
@@ -1094,6 +1102,34 @@ def check_c15(tracks, rng: random.Random, co: CaseOut, selections=None, model: b
                     co.model(f"C15 csv file ({kind}{', seg' if with_seg else ''})",
                              " ".join(["EX", "csvseg" if with_seg else "csv", str(I.one)] + enc + enc_sel(sel)),
                              str_csv_file(f, T, I, True, seg_out, with_seg))
+            # ------------------------------------------------------------ CSV, display-name layout
+            if "csv" in fmts:
+                co.evals += 1
+                fdn = d / f"cd{i}.csv"
+                st, r = guarded(export_to_csv, tracks, fdn, node_ids=set(sel), use_display_names=True)
+                if st != "ok":
+                    co.fail("C15|csv-display|" + ("empty-selection-" if not sel else "") + "export-raises-" +
+                            (type(r).__name__ if st == "err" else "hang"),
+                            f"export_to_csv(node_ids={sorted(sel)}, use_display_names=True): {_exc(r) if st == 'err' else 'hang'}",
+                            "hang" if st == "hang" else "oracle")
+                else:
+                    hdr_, rows_ = read_csv_file(fdn)
+                    if "ID" in hdr_:
+                        j = hdr_.index("ID")
+                        ids_ = [int(r_[j]) for r_ in rows_]
+                        if len(ids_) != len(set(ids_)):
+                            co.fail("C15|csv-display|duplicate-rows", f"selection {sorted(sel)}: ids {ids_}")
+                        for sg, w in _nodeset_fails("csv-display", set(ids_), keep, sel, stale_g):
+                            co.fail(sg, w)
+                        if "Parent ID" in hdr_:
+                            jp = hdr_.index("Parent ID")
+                            for r_ in rows_:
+                                if r_[jp] != "" and int(float(r_[jp])) not in set(ids_):
+                                    co.fail("C15|csv-display|missing-parent", f"row {r_[j]} names parent {r_[jp]} which is not exported")
+                    if model:
+                        ln = X.line_csv(tracks, I, enc, enc_sel(sel))
+                        if ln is not None:
+                            co.model(f"C15 csv-display file ({kind})", ln, X.str_file(fdn, tracks, I, cnum, True))
             # ------------------------------------------------------------ GEFF
             if "geff" in fmts:
                 co.evals += 1
@@ -1588,6 +1624,19 @@ def run_sequence(prop: str, ses: Session, seed: int, extra: dict | None, model: 
     return outs
 
 
+def mix_pos(ses: Session, spec: dict) -> None:
+    t = ses.tracks
+    axes = F.axis_names(spec["ndim"])
+    for x, v in zip(spec["nodes"], spec["mixed_pos"]):
+        if x["id"] not in t.graph:
+            continue
+        if spec["cfg"] == "axes":
+            for a, c in zip(axes, v):
+                t.graph.nodes[x["id"]][a] = c
+        else:
+            t.graph.nodes[x["id"]]["pos"] = list(v)
+
+
 def add_vel(ses: Session, spec: dict) -> None:
     t = ses.tracks
     t.features["vel"] = {"feature_type": "node", "value_type": "float", "num_values": 2,
@@ -1607,6 +1656,12 @@ def make_case(rng: random.Random, intensify: bool, prop: str | None = None) -> t
         return spec, [], Session(spec)
     spec = G.gen_case(rng)
     ses = Session(spec)
+    if spec["cfg"] in ("pos", "axes") and rng.random() < 0.25:
+        # positions of mixed numeric types: an integer plane/row index on the first axis (a Python
+        # int), sub-pixel floats on the others
+        spec["mixed_pos"] = [[rng.randrange(0, 30)] + [rng.randrange(0, 40) + rng.choice([0.25, 0.5, 0.75])
+                                                         for _ in range(spec["ndim"] - 2)] for _ in spec["nodes"]]
+        mix_pos(ses, spec)
     if rng.random() < 0.3:
         # a custom registered MULTI-VALUE node feature without value names / display name
         # (every built-in multi-value feature has value names)
